@@ -328,7 +328,11 @@ func (o *Overlay) requestTree(si *network.ServerIdentity, onetMsg *ProtocolMsg, 
 	}
 
 	if o.treeStorage.IsRegistered(onetMsg.To.TreeID) {
-		// request already sent
+		// request already sent; if the tree has arrived since the lookup,
+		// the message stored above has to be dispatched now
+		if tree := o.treeStorage.Get(onetMsg.To.TreeID); tree != nil {
+			o.checkPendingMessages(tree)
+		}
 		return nil
 	}
 
